@@ -15,9 +15,9 @@ for d in sorted(glob.glob(os.path.join(V, "seeded", "C*-*"))):
     dets = []
     try:
         for l in open(os.path.join(d, "detection.log")):
-            m = re.match(r"(\S+) (\S+) rc=(\d+) violations=(\d+) broken_obligations=(\d+) :: (.*?) :: (.*)", l.strip())
+            m = re.match(r"(\S+) (\S+) rc=(\d+) violations=(\d+) broken_obligations=(\d+) ::(.*?)::(.*)", l.rstrip("\n"))
             if not m: continue
-            _, chk, rc, nv, nb, first, key = m.groups()
+            _, chk, rc, nv, nb, first, key = [x.strip() for x in m.groups()]
             if rc == "0": dets.append(f"{chk}: **missed**")
             elif "no-failing-input-found" in first: dets.append(f"{chk}: broken obligation ({nb}), no failing input")
             else:
